@@ -55,6 +55,11 @@ claim("C11", "panic/assertion site enumeration with recomputed justifications, c
       "Decides that every explicit panic / unchecked assertion / ignored lookup result in the parse and prepare paths is justified by a dominating validation (C11.R1, R1b), that every recursive component has a parameter that "
       "strictly decreases (or a visited-set guard) on every cycle (R2), and that file and context errors reach the caller (R3). Totality of yaml.v3, the expression parser and pluginsdk are not decided.", NOTE)
 
+claim("C12", "path-sensitive abstract interpretation (P-path) of the step goroutines' SSA with typestate rules over all notification sequences; lockset and dominance rules for closing, input hand-over and channel closing",
+      "Decides over ALL notification sequences the step goroutine code can emit (every select case, unknown branch and fallible-call outcome forked; an over-approximation of all interleavings): declared stages in dependency order, "
+      "declared outputs, no stage finished twice or both finished and failed, exactly one completion with state finished (C12.R1-R4); closers mark closed first (R5); input hand-over once-guarded and non-blocking (R6); "
+      "no send after close (R7); stage/state writes under the step lock (R8). Real interleavings with the ATP client and State()/CurrentStage() at arbitrary instants are not decided.", NOTE)
+
 ALL = ["C%02d" % i for i in range(1, 21)]
 for pid in ALL:
     if pid not in P:
